@@ -290,6 +290,8 @@ class QueueWorld(object):
             maxa = self.cfg.get('max_attempts')
             if maxa is not None and led is not None and led['attempts'] >= maxa:
                 menu = [m for m in menu if 't' not in m.split(':')[-1] and m not in ('temp', 'boom')] or ['ok']
+            if self.cfg.get('relay_kind', 'scripted') != 'scripted':
+                return self._real_relay_attempt(envelope, attempts, rec, led, rcpts, k)
             o = menu[self.ch.choose(len(menu), 'outcome#%d' % k, 'data')]
             rec['outcome'] = o
             return self._apply_outcome(o, rcpts, led)
@@ -297,6 +299,109 @@ class QueueWorld(object):
             self.inflight[qid] -= 1
             rec['end'] = self.world.now
             self.ev('attempt-end', qid, rec['outcome'])
+
+    # ---- real relay classes fed by a scripted downstream (the downstream's behaviour is the data choice)
+    REAL_MENUS = {
+        'pipe': ['ok', 'temp', 'perm', 'first-ok-rest-temp', 'first-perm-rest-ok'],
+        'pipe-whole': ['ok', 'temp', 'perm'],
+        'maildrop': ['ok', 'temp', 'perm'],
+        'smtp': [{}, {'rcpt0': '5'}, {'rcpt0': '4'}, {'mail': '4'}, {'data': '5'}, {'eod': '4'}, {'eod': '5'}, {'banner': 'disconnect'},
+                 {'rcpt0': '4', 'rcpt1': '5'}, {'eod': 'disconnect'}],
+        'lmtp': [{}, {'rcpt0': '5'}, {'eod0': '5'}, {'eod0': '4'}, {'eod1': '4'}, {'mail': '4'}, {'eod0': '5', 'eod1': '4'}, {'banner': 'disconnect'}],
+    }
+
+    def _real_relay_attempt(self, envelope, attempts, rec, led, rcpts, k):
+        kind = self.cfg['relay_kind']
+        menu = self.REAL_MENUS[kind]
+        c = self.ch.choose(len(menu), 'downstream#%d' % k, 'data')
+        behaviour = menu[c]
+        rec['outcome'] = 'downstream:%s' % (behaviour if isinstance(behaviour, str) else ','.join('%s=%s' % kv for kv in sorted(behaviour.items())) or 'ok')
+        accepted, outcome = self._run_real_relay(kind, behaviour, envelope, attempts, rcpts)
+        # ledger from the TRUTH for deliveries, from the relay's report for failure classes (C11 judges those)
+        from worlds.relay_world import classify
+        per, whole = classify(outcome, envelope)
+        lt = {}
+        for r in rcpts:
+            if r in accepted:
+                self._settle(led, r, 'ok')
+            elif per.get(r) == 'perm':
+                self._settle(led, r, 'perm', ('550', None))
+            else:
+                lt[r] = ('450', None)
+        if led is not None:
+            led['last_temp'] = lt
+        rec['reported'] = whole
+        if outcome[0] == 'raised':
+            raise outcome[1]
+        return outcome[1]
+
+    def _run_real_relay(self, kind, behaviour, envelope, attempts, rcpts):
+        import socket as _socket
+        if kind in ('pipe', 'pipe-whole', 'maildrop'):
+            import slimta.relay.pipe as pipe
+            from fakes.fakepopen import FakeSubprocess
+            calls = []
+
+            def script(args, stdin, i):
+                calls.append(i)
+                b = behaviour
+                if b == 'first-ok-rest-temp':
+                    b = 'ok' if i == 0 else 'temp'
+                elif b == 'first-perm-rest-ok':
+                    b = 'perm' if i == 0 else 'ok'
+                if b == 'ok':
+                    return (0, b'', b'')
+                if kind == 'maildrop':
+                    return (75, b'maildrop: busy\n', b'') if b == 'temp' else (1, b'maildrop: no such user\n', b'')
+                return (1, b'4.2.0 try later\n', b'') if b == 'temp' else (1, b'5.1.1 no such user\n', b'')
+            sp = FakeSubprocess(script)
+            self.world.patch(pipe, 'subprocess', sp)
+            if kind == 'maildrop':
+                relay = pipe.MaildropRelay()
+            else:
+                relay = pipe.PipeRelay(['deliver', '{recipient}'])
+                relay.per_recipient = kind == 'pipe'
+            try:
+                outcome = ('returned', relay.attempt(envelope, attempts))
+            except gevent.GreenletExit:
+                raise
+            except BaseException as e:
+                outcome = ('raised', e)
+            accepted = set()
+            for i in calls:
+                b = behaviour
+                if b == 'first-ok-rest-temp':
+                    b = 'ok' if i == 0 else 'temp'
+                elif b == 'first-perm-rest-ok':
+                    b = 'perm' if i == 0 else 'ok'
+                if b == 'ok':
+                    accepted.update([rcpts[i]] if relay.per_recipient else rcpts)
+            return accepted, outcome
+        # SMTP / LMTP over in-memory sockets
+        from slimta.relay.smtp.static import StaticSmtpRelay, StaticLmtpRelay
+        from fakes.vsock import Net, VContext
+        from fakes.downstream import ScriptedPeer
+        net = Net(self.world)
+        peers = []
+
+        def creator(address):
+            c, s_ = net.pair(peername=address)
+            p = ScriptedPeer(s_, dict(behaviour), lmtp=(kind == 'lmtp'))
+            peers.append(p)
+            gevent.spawn(p.run)
+            return c
+        cls = StaticLmtpRelay if kind == 'lmtp' else StaticSmtpRelay
+        relay = cls('mx.test', 25, socket_creator=creator, ehlo_as='relay.test', context=VContext())
+        try:
+            outcome = ('returned', relay.attempt(envelope, attempts))
+        except gevent.GreenletExit:
+            raise
+        except BaseException as e:
+            outcome = ('raised', e)
+        accepted = set()
+        for p in peers:
+            accepted |= set(r.decode('utf-8') for snd, r in p.accepted())
+        return accepted, outcome
 
     def index_model(self, qid, led):
         """What KF-C03-1 predicts get() to return: the delivered indexes of every marking round, each relative to
